@@ -92,7 +92,7 @@ def REQUIRED(tier):
         "grid.checked": 60 * k, "nearest.geometry.checked": 60 * k, "nearest.ensemble.checked": 60 * k,
         "nearest.points.within-cutoff": 1000, "nearest.points.beyond-cutoff": 1000,
         "prune.checked": 60 * k, "prune.points.kept": 500, "prune.points.dropped": 500,
-        "aso.checked": 60 * k, "aeif.checked": 60 * k, "aso.points.compared": 5000, "aeif.points.compared": 5000,
+        "aso.checked": 60 * k, "descriptor.large-ensembles": 2 * k, "aeif.checked": 60 * k, "aso.points.compared": 5000, "aeif.points.compared": 5000,
         "aso.points.occupied": 500, "aeif.weighted.checked": 20 * k, "aso.weighted.checked": 20 * k,
     }
     for lay in NATIVE_LAYOUTS:       # every memory layout must have reached the kernels (swapaxes: first argument of cdist32* only)
